@@ -158,6 +158,8 @@ def short_worker(ctx, job):
         fsutil.wipe(cache)
         return fsx.run({"roots": [cache], "actors": [fsx.actor(flavour, "S", pf)], "timeout_ms": 30000, "faults": faults}, ctx.dir)
 
+    _raw_run_one = run_one
+    run_one = lambda faults: fsx.confirmed(lambda: _raw_run_one(faults))
     probe = run_one([])
     steps = [s for s in probe["steps"] if s.get("step") is not None]
     singles = []
